@@ -33,7 +33,7 @@ META = {
     "level_text": "c06_main/c06_av/c06_top (and c06_av_regardless, c06_body, c06_witness, c06_frozen_reg, c06_frozen_fsm) are "
     "proved for every statement tree, every valuation of conditions/selectors/run signals and every FSM/register "
     "state; the model is tied to the code by comparing every witness of random placement trees (nested transaction "
-    "and method bodies, raw AvoidedIf, If/Elif/Else, Switch, FSM incl. m.next) under all valuations of <= 10 input "
+    "and method bodies, raw AvoidedIf, If/Elif/Else on 1-3 bit conditions, Switch, FSM incl. m.next) under all valuations of <= 10 input "
     "bits (random valuations above), with the run signals sampled from the real Transaction.run/Method.run",
     "level_note": "trusted: Lean kernel, axioms propext/Quot.sound/Classical.choice; Amaranth's If/Switch/FSM semantics "
     "(modelled as first-match chains) and pysim; the harness glue (tree -> real API calls). Hypothesis t.wf (distinct "
@@ -225,17 +225,21 @@ class _Built:
                         if c is not None:
                             nconds = max(nconds, c + 1)
         nconds = max(nconds, int(tk.get("nc", "0")))
+        lst = lambda key: [] if tk.get(key, "-") == "-" else [int(x) for x in tk[key].split(",")]  # noqa: E731
+        cw = lst("cw") + [1] * nconds  # widths of the condition inputs (default 1)
+        nqs = sum({"T": 1, "M": 2, "A": 1}[k] for k in self.kinds)
+        qw = lst("qw") + [1] * nqs  # widths of the ready / request / raw run inputs
         built = self
 
         class Dut(Elaboratable):
             def __init__(self):
-                self.c = [Signal(name=f"c{i}") for i in range(nconds)]
+                self.c = [Signal(cw[i], name=f"c{i}") for i in range(nconds)]
                 self.s = [Signal(w, name=f"s{j}") for j, w in enumerate(built.selw)]
                 self.q = []  # plain inputs for bodies, in order of run id: T: ready; M: ready, request; A: run
                 self.qof = {}
                 for r, kind in enumerate(built.kinds):
                     n = {"T": 1, "M": 2, "A": 1}[kind]
-                    sigs = [Signal(name=f"q{r}_{j}") for j in range(n)]
+                    sigs = [Signal(qw[len(self.q) + j], name=f"q{r}_{j}") for j in range(n)]
                     self.qof[r] = sigs
                     self.q += sigs
                 self.w = {}
@@ -297,7 +301,7 @@ class _Built:
                         else:
                             with m.AvoidedIf(self.qof[r][0]):
                                 self.blk(m, it[2])
-                            self.runs[r] = self.qof[r][0]
+                            self.runs[r] = self.qof[r][0].bool()
 
             def elaborate(self, platform):
                 m = TModule()
@@ -323,9 +327,12 @@ class _Built:
     def parse_op(line: str):
         tk = dict(x.split("=", 1) for x in line.split()[1:])
         dash = lambda s: "" if s == "-" else s  # noqa: E731
-        c = [int(ch) for ch in dash(tk["c"])]
-        s = [int(x) for x in dash(tk["s"]).split(",")] if dash(tk["s"]) else []
-        q = [int(ch) for ch in dash(tk["q"])]
+        ints = lambda t: [int(x) for x in dash(t).split(",")] if dash(t) else []  # noqa: E731
+        # `cv` = raw values of the (1-3 bit) condition inputs; `c` = their truth values (value != 0), which
+        # is what the Lean model and the monitor are given
+        c = ints(tk["cv"]) if "cv" in tk else [int(ch) for ch in dash(tk["c"])]
+        s = ints(tk["s"])
+        q = ints(tk["q"])
         forces = []
         if "fst" in tk:
             forces = [tuple(int(y) for y in x.split(":")) for x in tk["fst"].split(",")]
@@ -498,6 +505,8 @@ class _Gen:
         self.max_bits = max_bits
         self.size = size
         self.nc = 0
+        self.cw: list[int] = []
+        self.qw: list[int] = []
         self.selw: list[int] = []
         self.kinds: list[str] = []
         self.nw = 0
@@ -534,7 +543,9 @@ class _Gen:
                         break
                     cid = self.nc
                     self.nc += 1
-                    self.bits += 1
+                    w = min(rng.choice([1, 1, 2, 2, 3]), self.max_bits - self.bits)
+                    self.cw.append(w)
+                    self.bits += w
                     alts.append((cid, self.blk(depth - 1, fsm, in_body)))
                 if alts and rng.random() < 0.5:
                     alts.append((None, self.blk(depth - 1, fsm, in_body)))
@@ -562,10 +573,16 @@ class _Gen:
                 items.append(("F", f, init, sts))
             elif kind == "B":
                 bk = rng.choices(["T", "M", "A"], weights=[4, 3, 2])[0]
-                need = 2 if bk == "M" else 1
+                ws = [1, 1] if bk == "M" else [1]
+                if bk == "A" and rng.random() < 0.6:
+                    ws = [rng.choice([2, 3])]  # raw AvoidedIf on a multi-bit value (holds iff non-zero)
+                elif bk == "T" and rng.random() < 0.15:
+                    ws = [2]  # multi-bit `ready=` (the run is sampled from the real circuit anyway)
+                need = sum(ws)
                 if self.bits + need <= self.max_bits:
                     r = len(self.kinds)
                     self.kinds.append(bk)
+                    self.qw += ws
                     self.bits += need
                     head = []
                     for dom in rng.sample(["a", rng.choice("cs"), "t", "c"], rng.choice([1, 2, 2, 3])):
@@ -576,13 +593,14 @@ class _Gen:
         return items
 
 
-def cfg_of(tree, kinds, selw, nc) -> str:
-    return f"cfg t={ser(tree)} k={''.join(kinds) or '-'} sw={','.join(map(str, selw)) or '-'} nc={nc}"
+def cfg_of(tree, kinds, selw, nc, cw, qw) -> str:
+    j = lambda l: ",".join(map(str, l)) or "-"  # noqa: E731
+    return f"cfg t={ser(tree)} k={''.join(kinds) or '-'} sw={j(selw)} nc={nc} cw={j(cw)} qw={j(qw)}"
 
 
-def stimulus(rng: random.Random, nc: int, selw: list[int], nq: int, fsms, max_cycles: int, force_p: float):
+def stimulus(rng: random.Random, cw: list[int], selw: list[int], qw: list[int], fsms, max_cycles: int, force_p: float):
     """input lines without the run bits: all valuations (shuffled) when they fit, else random ones"""
-    bits = nc + sum(selw) + nq
+    bits = sum(cw) + sum(selw) + sum(qw)
     if (1 << bits) <= max_cycles:
         vals = list(range(1 << bits))
         rng.shuffle(vals)
@@ -592,16 +610,13 @@ def stimulus(rng: random.Random, nc: int, selw: list[int], nq: int, fsms, max_cy
         full = False
     lines = []
     for v in vals:
-        c = [(v >> i) & 1 for i in range(nc)]
-        v >>= nc
-        s = []
-        for w in selw:
-            s.append(v & ((1 << w) - 1))
-            v >>= w
-        q = [(v >> i) & 1 for i in range(nq)]
-        line = (
-            f"cyc c={''.join(map(str, c)) or '-'} s={','.join(map(str, s)) or '-'} q={''.join(map(str, q)) or '-'}"
-        )
+        c, s, q = [], [], []
+        for dst, ws in ((c, cw), (s, selw), (q, qw)):
+            for w in ws:
+                dst.append(v & ((1 << w) - 1))
+                v >>= w
+        j = lambda l: ",".join(map(str, l)) or "-"  # noqa: E731
+        line = f"cyc c={''.join(str(int(x != 0)) for x in c) or '-'} cv={j(c)} s={j(s)} q={j(q)}"
         if fsms and rng.random() < force_p:
             fs = [(f, rng.choice(sts)) for f, _, sts in fsms if sts and rng.random() < 0.7]
             if fs:
@@ -628,14 +643,17 @@ def finish_case(cfg: str, lines: list[str], tag: str, desc: dict) -> Case:
     return case
 
 
-def tree_case(tree, kinds, selw, nc, rng, max_cycles, tag, force_p=0.3) -> Case:
-    cfg = cfg_of(tree, kinds, selw, nc)
+def tree_case(tree, kinds, selw, nc, rng, max_cycles, tag, force_p=0.3, cw=None, qw=None) -> Case:
     nq = sum({"T": 1, "M": 2, "A": 1}[k] for k in kinds)
+    cw = list(cw) if cw is not None else [1] * nc
+    qw = list(qw) if qw is not None else [1] * nq
+    cfg = cfg_of(tree, kinds, selw, nc, cw, qw)
     fsms = fsm_list(tree)
-    lines, full = stimulus(rng, nc, selw, nq, fsms, max_cycles, force_p)
+    lines, full = stimulus(rng, cw, selw, qw, fsms, max_cycles, force_p)
     pl = placements(tree)
     desc = {
-        "bits": nc + sum(selw) + nq,
+        "bits": sum(cw) + sum(selw) + sum(qw),
+        "wide_conds": sum(1 for w in cw if w > 1) + sum(1 for k, w in zip("".join("MM" if k == "M" else k for k in kinds), qw) if w > 1),
         "all_valuations": full,
         "bodies": "".join(kinds),
         "fsms": len(fsms),
@@ -653,7 +671,7 @@ def random_case(seed: int, max_bits: int, size: int, depth: int, max_cycles: int
         tree = g.blk(depth, None, False)
         if g.nw >= 4 and g.kinds and g.bits >= want:
             break
-    return tree_case(tree, g.kinds, g.selw, g.nc, rng, max_cycles, tag)
+    return tree_case(tree, g.kinds, g.selw, g.nc, rng, max_cycles, tag, cw=g.cw, qw=g.qw)
 
 
 def _w(dom, i):
@@ -665,10 +683,11 @@ def directed(rng, max_cycles) -> list[Case]:
     # 1. the four domains directly inside a transaction body under If / Elif / Else
     four = lambda k: [_w("c", k), _w("s", k + 1), _w("a", k + 2), _w("t", k + 3)]  # noqa: E731
     t1 = [("I", [(0, [("B", 0, four(0))]), (1, four(4)), (None, [("B", 1, four(8))])])]
+    cases.append(tree_case(t1, ["T", "M"], [], 2, rng, max_cycles, "directed", cw=[2, 3]))
     cases.append(tree_case(t1, ["T", "M"], [], 2, rng, max_cycles, "directed"))
     # 2. bodies nested three deep (transaction > method > raw AvoidedIf), conditions between them
     t2 = [("B", 0, four(0) + [("I", [(0, [("B", 1, four(4) + [("I", [(1, [("B", 2, four(8))])])])])])])]
-    cases.append(tree_case(t2, ["T", "M", "A"], [], 2, rng, max_cycles, "directed"))
+    cases.append(tree_case(t2, ["T", "M", "A"], [], 2, rng, max_cycles, "directed", cw=[2, 1], qw=[1, 1, 1, 2]))
     # 3. FSM inside a body; transitions only inside the body; av_comb in states; Switch with overlapping cases and Default
     t3 = [
         ("B", 0, [
@@ -714,8 +733,8 @@ def gen_cases(ctx: Check) -> list[Case]:
     rng = ctx.rng("gen")
     max_cycles = ctx.pick(1024, 1024)
     cases = directed(rng, max_cycles)
-    n_small = ctx.pick(70, 800)
-    n_big = ctx.pick(12, 150)
+    n_small = ctx.pick(48, 800)
+    n_big = ctx.pick(8, 150)
     specs = []
     for k in range(n_small):
         specs.append((rng.getrandbits(48), rng.choice([5, 6, 7, 8, 9, 9, 10, 10]), rng.choice([6, 8, 10]), rng.choice([3, 3, 4]), max_cycles))
@@ -743,7 +762,8 @@ def more_cases(case: Case, rng):
     kinds = [] if tk.get("k", "-") == "-" else list(tk["k"])
     selw = [] if tk.get("sw", "-") == "-" else [int(x) for x in tk["sw"].split(",")]
     for _ in range(3):
-        yield tree_case(tree, kinds, selw, int(tk.get("nc", "0")), rng, 1024, "search")
+        ints = lambda key: None if tk.get(key, "-") == "-" else [int(x) for x in tk[key].split(",")]  # noqa: E731
+        yield tree_case(tree, kinds, selw, int(tk.get("nc", "0")), rng, 1024, "search", cw=ints("cw"), qw=ints("qw"))
     for _ in range(40):
         yield random_case(rng.getrandbits(48), 8, 6, 3, 256, "search")
 
@@ -776,7 +796,7 @@ def run(ctx: Check):
     ctx.rule = (
         "case = (placement tree, sequence of valuations); trees are random nestings of If/Elif/Else, Switch, FSM, "
         "transaction/method bodies and raw AvoidedIf with one witness per placement and domain; valuations are ALL "
-        "assignments of the condition/selector/ready inputs when <= 10 bits (shuffled; FSM registers additionally "
+        "assignments of the (1-3 bit wide: a condition holds iff its value is non-zero) condition/selector/ready inputs when <= 10 bits (shuffled; FSM registers additionally "
         "overwritten at random), random ones otherwise; non-trivial = an av_comb witness inside a body is in effect while "
         "that body does not run AND an ordinary-domain witness inside a body is seen both in effect and not"
     )
@@ -793,6 +813,7 @@ def run(ctx: Check):
         ctx.count(f"encl_depth_{min(d['max_depth'], 6)}")
         ctx.count("placements", d["placements"])
         ctx.count("trees_with_fsm", 1 if d["fsms"] else 0)
+        ctx.count("trees_with_multibit_conditions", 1 if d.get("wide_conds") else 0)
         ctx.count("trees_nested_bodies", 1 if d["max_depth"] and _nested(c) else 0)
         for k in d["bodies"]:
             ctx.count(f"bodies_{k}")
